@@ -24,6 +24,7 @@ LINES = [b'*IDN?', b'describe', b'describe .', b'ping x', b'ping', b'ping x 1', 
          b'activate', b'activate m', b'activate zz', b'deactivate', b'xyz a b', b'_ident', b'request x', b'error_read m:a', b'help', b'', b' ',
          b'read m:a\r', b'\r', b'\xff\xfe', b'read \xe9\xe9', b'read m:a\x00', b'READ m:a', b'read  m:a', b' read m:a', b'handle_request', b'__class__',
          b'logging m "info"', b'logging . "nolevel"', b'change m:_b ' + b'1' * 5000, b'read m:a ' + b'x' * 5000, b'describe m:a', b'describe m:zz',
+         b'  ping x {bad', b' change m:_b [1,', b'ping x {bad\r',      # broken JSON after leading blanks / before a CR
          b'change m:_s "\\u00e9\\n"', b'change m:_s "\xc3\xa9"', b'change m:_s "\\ud800"']
 
 
